@@ -32,7 +32,7 @@ def build(spec):
     if "oline" in spec:
         return gfapy.OrientedLine(build(spec["oline"][0]), spec["oline"][1])
     if "cigar" in spec:
-        return gfapy.Alignment(spec["cigar"])
+        return gfapy.Alignment(spec["cigar"], version=spec.get("version", "gfa1"))
     if "placeholder" in spec:
         return gfapy.Placeholder()
     if "ns" in spec:
@@ -106,10 +106,12 @@ def main():
             if isinstance(o, staticmethod):
                 o = o.__func__
             f = lambda: o(*args, **kwargs)
-        pre = call.get("observe_before")
+        if "self" in call and call.get("observe_self"):
+            out_before = describe(recv)
         r = f()
         out = {"kind": "return", "value": describe(r)}
         if "self" in call and call.get("observe_self"):
+            out["self_before"] = out_before
             out["self_after"] = describe(recv)
     except BaseException as e:
         out = {"kind": "raise", "exc": type(e).__module__ + "." + type(e).__name__, "is_gfapy_error": isinstance(e, gfapy.Error),
